@@ -7,7 +7,7 @@ WT=/tmp/wt-fee
 git -C $WT checkout -- . >/dev/null 2>&1
 for f in common/txlocator/verif_export.go service/verif_export.go; do cp /repo/$f $WT/$f; done
 if [ -z "$nofix" ]; then
-  (cd $WT && patch -p1 -s < /verif/fixes/C11-cache-maxts.diff && patch -p1 -s < /verif/fixes/C11-tracker-window.diff) || { echo "PATCH FAILED"; exit 9; }
+  (cd $WT && patch -p1 -s < /verif/fixes/C11-cache-maxts.diff && patch -p1 -s < /verif/fixes/C11-tracker-ancestors.diff) || { echo "PATCH FAILED"; exit 9; }
 fi
 if [ -n "$file" ]; then
 python3 - "$WT/$file" "$old" "$new" <<'PY' || exit 9
